@@ -325,3 +325,143 @@ Theorem common_ancestor_self f n c : NoDup (ids f) -> locate_f n f = Some c ->
 Proof.
   intros H Hc. unfold q_common_ancestor. cbn [find map existsb]. now rewrite Nat.eqb_refl.
 Qed.
+
+(* ------------------------------------------------------------------ *)
+(* children / parent are inverse; what a child inherits                 *)
+(* ------------------------------------------------------------------ *)
+Lemma child_ctx f c x : ctx_ok f c -> In x (rch (c_self c)) ->
+  ctx_ok f (c_self c :: c_anc c, rch (c_self c), x).
+Proof.
+  intros [Hc Hs] Hx. split; [|exact Hx]. unfold c_anc, c_sibs; cbn [fst snd].
+  apply (chain_down f (c_self c) (c_anc c) (c_sibs c)); assumption.
+Qed.
+
+Theorem child_context f n m c cx : NoDup (ids f) -> locate_f n f = Some c -> locate_f m f = Some cx ->
+  In (c_self cx) (q_children c) ->
+  c_anc cx = c_self c :: c_anc c /\ c_sibs cx = rch (c_self c).
+Proof.
+  intros H Hc Hx Hin. destruct (locate_f_ok f n c Hc) as [Hok _]. destruct (locate_f_ok f m cx Hx) as [_ Em].
+  pose proof (located_unique f m cx _ H Hx (child_ctx f c (c_self cx) Hok Hin) Em) as E.
+  split; [exact (eq_sym (f_equal c_anc E))|exact (eq_sym (f_equal c_sibs E))].
+Qed.
+
+Theorem children_parent_inverse f n m c cx : NoDup (ids f) -> locate_f n f = Some c -> locate_f m f = Some cx ->
+  (In (c_self cx) (q_children c) <-> q_parent cx = Some (c_self c)).
+Proof.
+  intros H Hc Hx. split.
+  - intros Hin. destruct (child_context f n m c cx H Hc Hx Hin) as [Ea _]. unfold q_parent. now rewrite Ea.
+  - intros E. destruct (locate_f_ok f m cx Hx) as [Hok _]. pose proof (parent_child f cx Hok) as P.
+    rewrite E in P. unfold q_children. apply P.
+Qed.
+
+Lemma flat_map_snoc {X Y} (g : X -> list Y) l x : flat_map g (l ++ [x]) = flat_map g l ++ g x.
+Proof. rewrite flat_map_app. cbn. now rewrite app_nil_r. Qed.
+
+Lemma last_error_cons {X} (x : X) l : last_error (x :: l) = match last_error l with Some t => Some t | None => Some x end.
+Proof. unfold last_error. cbn [rev]. rewrite hd_error_app. now destruct (rev l). Qed.
+
+Lemma q_path_self c : q_path c true = flat_map (fun t => 47%Z :: i_name (rinfo t)) (rev (c_self c :: c_anc c)).
+Proof.
+  unfold q_path, q_parent_list. destruct (rev (c_self c :: c_anc c)) eqn:E; [|reflexivity].
+  cbn [rev] in E. symmetry in E. now apply app_cons_not_nil in E.
+Qed.
+
+Definition node_name (t : rt) : text := i_name (rinfo t).
+
+(* every query of a child, from its parent's *)
+Theorem child_laws f n m c cx : NoDup (ids f) -> locate_f n f = Some c -> locate_f m f = Some cx ->
+  In (c_self cx) (q_children c) ->
+  q_parent cx = Some (c_self c) /\
+  q_is_top cx = false /\
+  q_depth cx = S (q_depth c) /\
+  q_siblings cx true = q_children c /\
+  q_first_sibling cx = q_first_child c /\
+  q_last_sibling cx = q_last_child c /\
+  (q_is_first cx = true <-> q_first_child c = Some (c_self cx)) /\
+  (q_is_last cx = true <-> q_last_child c = Some (c_self cx)) /\
+  q_parent_list cx false false = q_parent_list c true false /\
+  q_path cx false = q_path c true /\
+  q_path cx true = q_path c true ++ 47%Z :: node_name (c_self cx) /\
+  q_top cx = q_top c /\
+  q_up cx 1 = Some (Some (c_self c)) /\
+  (forall k, q_up cx (S (S k)) = q_up c (S k)).
+Proof.
+  intros H Hc Hx Hin. destruct (child_context f n m c cx H Hc Hx Hin) as [Ea Es].
+  assert (Hfl : forall t, In t (rch (c_self c)) -> (is_self (rid (c_self cx)) t = true <-> t = c_self cx)).
+  { intros t Ht. unfold is_self. rewrite Nat.eqb_eq. split; [|now intros ->].
+    destruct (locate_f_ok f n c Hc) as [Hok _]. destruct (locate_f_ok f m cx Hx) as [Hokx _].
+    apply (node_unique f); [assumption| |now apply (ctx_self_in_pre f)].
+    eapply pre_f_child_closed; [apply (ctx_self_in_pre f c Hok)|assumption]. }
+  refine (conj _ (conj _ (conj _ (conj _ (conj _ (conj _ (conj _ (conj _ (conj _ (conj _ (conj _ (conj _ (conj _ _))))))))))))).
+  - unfold q_parent. now rewrite Ea.
+  - unfold q_is_top. now rewrite Ea.
+  - unfold q_depth. now rewrite Ea.
+  - unfold q_siblings, q_children. exact Es.
+  - unfold q_first_sibling, q_first_child. now rewrite Es.
+  - unfold q_last_sibling, q_last_child. now rewrite Es.
+  - unfold q_is_first, q_first_child. rewrite Es. destruct (rch (c_self c)) as [|y l] eqn:El; cbn [hd_error].
+    + split; discriminate.
+    + rewrite (Hfl y (or_introl eq_refl)). split; [now intros ->|intros E; now injection E].
+  - unfold q_is_last, q_last_child. rewrite Es. destruct (last_error (rch (c_self c))) as [y|] eqn:El.
+    + assert (Hy : In y (rch (c_self c))).
+      { unfold last_error in El. apply in_rev. destruct (rev (rch (c_self c))); [discriminate|]. injection El as ->. now left. }
+      rewrite (Hfl y Hy). split; [now intros ->|intros E; now injection E].
+    + split; discriminate.
+  - unfold q_parent_list. now rewrite Ea.
+  - unfold q_path, q_parent_list. now rewrite Ea.
+  - rewrite !q_path_self, Ea. cbn [rev]. rewrite flat_map_snoc. reflexivity.
+  - unfold q_top. rewrite Ea, last_error_cons. now destruct (last_error (c_anc c)).
+  - unfold q_up. now rewrite Ea.
+  - intros k. unfold q_up. rewrite Ea. reflexivity.
+Qed.
+
+(* top-level nodes: the forest itself plays the role of the parent's child list *)
+Theorem top_level_laws f m cx : NoDup (ids f) -> locate_f m f = Some cx ->
+  (In (c_self cx) f <-> q_parent cx = None) /\
+  (q_parent cx = None ->
+     q_is_top cx = true /\ q_depth cx = 1 /\ q_siblings cx true = f /\
+     q_first_sibling cx = hd_error f /\ q_last_sibling cx = last_error f /\
+     q_parent_list cx false false = [] /\ q_path cx false = [47%Z] /\
+     q_path cx true = 47%Z :: node_name (c_self cx) /\ q_top cx = c_self cx /\ q_up cx 1 = Some None).
+Proof.
+  intros H Hx. destruct (locate_f_ok f m cx Hx) as [Hok Em].
+  assert (G : q_parent cx = None -> c_anc cx = [] /\ c_sibs cx = f).
+  { unfold q_parent. intros E. destruct (c_anc cx) eqn:Ea; [|discriminate]. split; [reflexivity|].
+    rewrite (ctx_sibs f cx Hok). now rewrite Ea. }
+  split; [split|].
+  - intros Hin. assert (Hok' : ctx_ok f ([], f, c_self cx)) by (split; [constructor|exact Hin]).
+    pose proof (located_unique f m cx _ H Hx Hok' Em) as E. unfold q_parent. now rewrite <- (f_equal c_anc E).
+  - intros E. pose proof (parent_child f cx Hok) as P. rewrite E in P. apply P.
+  - intros E. destruct (G E) as [Ea Es].
+    refine (conj _ (conj _ (conj _ (conj _ (conj _ (conj _ (conj _ (conj _ (conj _ _))))))))).
+    + unfold q_is_top. now rewrite Ea.
+    + unfold q_depth. now rewrite Ea.
+    + exact Es.
+    + unfold q_first_sibling. now rewrite Es.
+    + unfold q_last_sibling. now rewrite Es.
+    + unfold q_parent_list. now rewrite Ea.
+    + unfold q_path, q_parent_list. now rewrite Ea.
+    + rewrite q_path_self, Ea. cbn. now rewrite app_nil_r.
+    + unfold q_top. now rewrite Ea.
+    + unfold q_up. now rewrite Ea.
+Qed.
+
+(* leaf / children / first / last child *)
+Theorem leaf_laws c :
+  (q_is_leaf c = true <-> q_children c = []) /\
+  (q_is_leaf c = true <-> q_height c = 0) /\
+  (q_is_leaf c = true <-> q_first_child c = None) /\
+  q_has_children c = negb (q_is_leaf c) /\
+  q_first_child c = hd_error (q_children c) /\
+  q_last_child c = last_error (q_children c) /\
+  (forall x, q_first_child c = Some x -> In x (q_children c)) /\
+  (forall x, q_last_child c = Some x -> In x (q_children c)).
+Proof.
+  unfold q_is_leaf, q_children, q_height, q_first_child, q_last_child, q_has_children.
+  refine (conj _ (conj _ (conj _ (conj eq_refl (conj eq_refl (conj eq_refl (conj _ _))))))).
+  - destruct (rch (c_self c)); split; intros; try reflexivity; discriminate.
+  - destruct (c_self c) as [id i [|y l]]; cbn [rch height]; split; intros; try reflexivity; discriminate.
+  - destruct (rch (c_self c)); split; intros; try reflexivity; discriminate.
+  - intros x E. destruct (rch (c_self c)); [discriminate|]. injection E as ->. now left.
+  - intros x E. unfold last_error in E. apply in_rev. destruct (rev (rch (c_self c))); [discriminate|]. injection E as ->. now left.
+Qed.
